@@ -725,3 +725,7 @@ impl<'a> Call<'a> {
         }
     }
 }
+
+#[cfg(kani)]
+#[path = "/verif/kani/compiler_ast.rs"]
+mod verif_kani;
